@@ -21,9 +21,21 @@ Definition model_run (b : bool) (old script : list str) : result (list str) :=
 Definition dec_obs (o : result (list string)) : result (list str) :=
   match o with Ok ls => Ok (map dec ls) | Err e => Err e end.
 
-Definition agree (c : case) : bool :=
+(** the model reproduces the two observed results *)
+Definition agree_obs (c : case) : bool :=
   let m := model_run (c_bytes c) (map dec (c_old c)) (map dec (c_script c)) in
   result_eqb strs_eqb m (dec_obs (c_obs c)) && result_eqb strs_eqb m (dec_obs (c_obs2 c)).
+
+(** ... and, when the harness derived the script from a target file, the model itself produces that target
+    (so that the correspondence also confronts the model with the diff-derived expectation; with this conjunct
+    [agree c = true -> holds c = true] holds for every case, Props/C18.v) *)
+Definition agree_expect (c : case) : bool :=
+  match c_expect c with
+  | Some n => result_eqb strs_eqb (model_run (c_bytes c) (map dec (c_old c)) (map dec (c_script c))) (Ok (map dec n))
+  | None => true
+  end.
+
+Definition agree (c : case) : bool := agree_obs c && agree_expect c.
 
 (** A decimal digit the str pattern accepts but ed's grammar does not:
     such scripts are outside the property's domain. *)
